@@ -37,7 +37,9 @@ ParameterRemapBasicStringPtrToString(CPPType *orig_type) :
  */
 void ParameterRemapBasicStringPtrToString::
 pass_parameter(std::ostream &out, const string &variable_name) {
-  out << "&std::string(" << variable_name << ")";
+  // The address of a temporary cannot be taken directly; go through a
+  // reference, which keeps the temporary alive for the duration of the call.
+  out << "&static_cast<const std::string &>(std::string(" << variable_name << "))";
 }
 
 /**
@@ -70,7 +72,7 @@ ParameterRemapBasicWStringPtrToWString(CPPType *orig_type) :
  */
 void ParameterRemapBasicWStringPtrToWString::
 pass_parameter(std::ostream &out, const string &variable_name) {
-  out << "&std::wstring(" << variable_name << ")";
+  out << "&static_cast<const std::wstring &>(std::wstring(" << variable_name << "))";
 }
 
 /**
